@@ -49,7 +49,7 @@ def plan(tier):
 def floors(tier):
     return {"nontrivial": 150, "held:main": 200, "held:hostile": 60, "counter:paths_checked": 800, "counter:steps_checked": 20000,
             "counter:exact_paths": 300, "counter:tau_paths": 300, "counter:checkjump_calls": 20000, "counter:contract_evaluations": 20000,
-            "counter:hostile_draws": 500, "counter:tau_fallbacks": 20, "counter:early_stops_explained": 20,
+            "counter:hostile_draws": 500, "counter:previous_model_resimulations": 300, "counter:tau_fallbacks": 20, "counter:early_stops_explained": 20,
             "class:single-event": 10, "class:single-state": 10, "class:multi-transition": 20, "class:has-B/D": 40,
             "class:pre_tau": 30, "class:python-t0": 20,
             "reach:firstReaction": 5000, "reach:tauLeap": 2000, "reach:_checkJump": 5000, "reach:SimulateOde._jump": 800}
@@ -158,6 +158,23 @@ def run_case(rng, idx, tier, lane, ctx):
             wit.extend(bad[:3])
             if (st["steps"] >= 5 and st["distinct_events"] >= 2) or (st["steps"] >= 3 and (len(spec["states"]) == 1 or len(spec["events"]) == 1)):
                 nontriv = True
+    # ---- other model objects live in the same process: the model of the previous case of this shard is simulated once more AFTER the
+    # current one (whatever a simulation caches must be per model object)
+    prev = ctx.get("prev_model")
+    if prev is not None and not wit and lane != "asan":
+        pm, pspec, pV, px0, phor = prev
+        for pexact in (True, False):
+            pcfg = {"exact": pexact, "n": 1, "seed": np_seed(rng), "pre_tau": None if pexact else 0.05 * max(phor, 1e-3), "epsilon": None,
+                    "re-simulated": "model of the previous case, after the current model was simulated"}
+            r = S.run_config(pm, pspec, pV, px0, phor, pcfg)
+            counters["previous_model_resimulations"] = counters.get("previous_model_resimulations", 0) + 1
+            if r["inconclusive"]:
+                break
+            for w in r["witnesses"]:
+                w["previous_model"] = pspec
+            wit.extend(r["witnesses"][:2])
+    if not pyt0:
+        ctx["prev_model"] = (m, spec, V, list(x0), horizon)
     sample = {"spec": spec, "theta": theta, "x0": x0, "horizon": horizon, "t0_python_number": pyt0, "configs": configs}
     res = {"status": "violated" if wit else "held", "nontrivial": nontriv, "key": canon_hash(sample), "classes": cls,
            "counters": counters, "sample": sample}
